@@ -11,7 +11,12 @@ theorem exec_ok {cfg : Cfg} {m : Mem} {fs : FS Name} (hfs : GoodFS cfg fs) (hg :
     (ord : Order Name) (o : Op)
     (hp : ∀ K sz, o = Op.create K sz → ValidKey cfg K ∧ sz < 2 ^ 63) : OpOK cfg m fs (exec cfg ord m fs o) := by
   cases o with
-  | create K sz => obtain ⟨h1, h2⟩ := hp K sz rfl; exact create_ok hfs hg ord K sz h1 h2
+  | create K sz =>
+    obtain ⟨h1, h2⟩ := hp K sz rfl
+    simp only [exec]
+    split
+    · exact create_ok hfs hg ord K sz h1 h2
+    · exact opOK_noop hfs hg hg rfl _ (by decide)
   | write K off b => exact write_ok hfs hg K off b
   | markComplete K => exact markComplete_ok hfs hg K
   | delete K => exact delete_ok hfs hg ord K
